@@ -254,6 +254,7 @@ class World:
             "c13_seen": self.c13_seen,
             "last_entries": getattr(self, "last_entries", []),
             "entries_by_step": self.entries_by_step,
+            "classes": sorted({r_.cls for r_ in self.objs.values()}),
             "parent_roots_after_derive": self.parent_roots_after_derive,
         }
 
